@@ -49,6 +49,41 @@ def rule_prov(ctx, f):
             ctx.check("as:Original" in rf and "as:Original" in idf, "C12-PROV", b["id"] + "#range",
                       "id and range are not taken from the same StreamData::Original", t["span"], detail="(range, id) = StreamData::Original of the stream")
     ctx.floor("C12-PROV", n, 2, "get_data_or_decode call sites (Stream::data, ImageXObject::raw_image_data)")
+    # who may use the stream cache at all: it is keyed by the object id alone, so the only producer is get_data_or_decode, whose closure decodes
+    # with the filters it was given (raw bytes, partly decoded bytes, anything else must not be stored under the same key)
+    m = 0
+    for b in f.bodies.values():
+        for bi, t in F.calls(b):
+            if last_seg(F.callee_name(t)) != "get_or_compute" or not t["args"]:
+                continue
+            l = arg_local(t, 0)
+            flds = set()
+            if l is not None:
+                Flow(b).origins(l, fields=flds)
+            if "stream_cache" not in flds:
+                continue
+            m += 1
+            owner = b["id"].split("::{closure")[0]
+            okw = owner.endswith("::get_data_or_decode") and (f.bodies.get(owner, b).get("impl") or {}).get("trait") == "object::Resolve"
+            # the compute closure hands the function's own `filters` parameter on
+            okf = False
+            fl = Flow(b)
+            for a in fl.origins(arg_local(t, 2)) if arg_local(t, 2) is not None else []:
+                if a[0] == "agg" and a[1].get("k") == "closure":
+                    cb = f.bodies.get(a[1].get("closure"))
+                    if cb is not None:
+                        for ci, ct in F.calls(cb):
+                            if last_seg(F.callee_name(ct)) == "decode" and len(ct["args"]) >= 4:
+                                cfl = Flow(cb)
+                                fa = F.op_local(ct["args"][3])
+                                fs2 = set()
+                                ats = cfl.origins(fa, fields=fs2) if fa is not None else []
+                                consts = [x for x in ats if x[0] in ("const", "agg") and not (x[0] == "agg" and x[1].get("k") == "closure")]
+                                okf = any(x[0] == "arg" and x[1] == 1 for x in ats) and not consts
+            ctx.check(okw and okf, "C12-PROV", b["id"] + "#stream-cache-user", "the stream cache (keyed by the object id only) is filled %s: a later read of the same stream with "
+                      "the full filter list is served these bytes" % ("outside get_data_or_decode" if not okw else "with something other than the caller's filter list"),
+                      t["span"], detail="stream_cache.get_or_compute only in get_data_or_decode, computing decode(id, range, filters)")
+    ctx.floor("C12-PROV", m, 1, "uses of the stream cache")
 
 
 def rule_consumers(ctx, f):
@@ -189,8 +224,16 @@ def rule_invalidate(ctx, f, prop="C12"):
         if b["kind"] == "Closure":
             continue
         ins = []
+        drops = []
         for bi, t in F.calls(b):
             nm = F.callee_name(t)
+            if last_seg(nm) in ("clear", "drain", "retain", "remove", "remove_entry") and "HashMap" in nm and t["args"]:
+                l = arg_local(t, 0)
+                flds = set()
+                if l is not None:
+                    Flow(b).origins(l, fields=flds)
+                if "changes" in flds:
+                    drops.append((bi, t))
             if last_seg(nm) in ("insert", "entry", "remove", "get_mut") and "HashMap" in nm and t["args"]:
                 pl = F.op_place(t["args"][0])
                 l = arg_local(t, 0)
@@ -199,6 +242,23 @@ def rule_invalidate(ctx, f, prop="C12"):
                     Flow(b).origins(l, fields=flds)
                 if "changes" in flds:
                     ins.append((bi, t))
+        if drops:
+            # dropping pending values sends later reads back to the file: whatever the caches hold for those objects (the id-keyed stream
+            # cache as well) dates from before the write
+            fl0 = Flow(b)
+            cfg0 = CFG(b)
+            sclr = []
+            for bi, t in F.calls(b):
+                if t.get("callee") == "file::Cache::clear" or (last_seg(F.callee_name(t)) == "clear" and "Cache" in F.callee_name(t)):
+                    flds = set()
+                    l = arg_local(t, 0)
+                    if l is not None:
+                        fl0.origins(l, fields=flds)
+                    if "stream_cache" in flds:
+                        sclr.append(bi)
+            okd = bool(sclr) and all(cfg0.all_paths_pass(d[0], cfg0.exits, set(sclr)) for d in drops)
+            ctx.check(okd, rid, b["id"] + "#changes-dropped", "pending values are removed from Storage.changes without clearing the stream cache: the objects are read from the "
+                      "file again and a stream cached before the update is served with its old bytes", drops[0][1]["span"], detail="changes.clear() needs stream_cache.clear()")
         if not ins:
             continue
         n += 1
